@@ -278,6 +278,14 @@ func WideDocs() []interface{} {
 		[]interface{}{[]interface{}{[]interface{}{map[string]interface{}{"a": 1.0}, map[string]interface{}{"b": 2.0}}}},
 		map[string]interface{}{"b": map[string]interface{}{"a": []interface{}{[]interface{}{map[string]interface{}{"a": 2.0}}, map[string]interface{}{"a": 3.0}}}},
 	)
+	// two objects whose members swap roles (a continuation that fails under the first name and
+	// succeeds under the second), and lists of containers directly inside lists
+	out = append(out,
+		map[string]interface{}{"a": map[string]interface{}{"b": 1.0}, "b": map[string]interface{}{"a": 2.0}},
+		map[string]interface{}{"a": map[string]interface{}{"a": 1.0}, "b": map[string]interface{}{"a": 2.0}},
+		map[string]interface{}{"a": []interface{}{[]interface{}{map[string]interface{}{"a": 1.0}, map[string]interface{}{"a": 2.0}}, []interface{}{map[string]interface{}{"a": 3.0}}}},
+		[]interface{}{[]interface{}{map[string]interface{}{"a": 1.0}, map[string]interface{}{"a": 2.0}, map[string]interface{}{"b": 3.0}}},
+	)
 	// arrays of longer arrays: inner index lists longer than the outer one
 	nums := func(xs ...float64) []interface{} {
 		var o []interface{}
